@@ -2,5 +2,11 @@
 #![allow(static_mut_refs)]
 #![allow(clippy::all)]
 pub mod stubs;
+pub mod vsrc;
+pub mod rec;
 pub mod h_model;
 pub mod h_c19;
+pub mod h_c05;
+pub mod model;
+pub mod props;
+pub mod h_std;
